@@ -441,6 +441,13 @@ func (f *frame) exec(in ssa.Instruction, st *State, cur string) (string, error) 
 					if B.sortOf(s.Chan.Type().Underlying().(*types.Chan).Elem()) == "Int" {
 						ev = fmt.Sprintf("(ev_Recv %s %s)", f.termOf(s.Chan), v.term)
 						when = fmt.Sprintf("(and (= %s %d) %s)", idx, k, ok)
+						if f.fc.WakeEvents {
+							ev = fmt.Sprintf("(ev_Recv %s (ite %s %s 0))", f.termOf(s.Chan), ok, v.term)
+							when = fmt.Sprintf("(= %s %d)", idx, k)
+						}
+					} else if f.fc.WakeEvents {
+						ev = fmt.Sprintf("(ev_Recv %s 0)", f.termOf(s.Chan))
+						when = fmt.Sprintf("(= %s %d)", idx, k)
 					}
 				}
 				if ev == "" {
